@@ -125,6 +125,47 @@ func refGW(series []GWPoint, zeit int) float64 {
 	return last.Level
 }
 
+// refGWBounds: the two given values the level of that day must lie between (both equal to the value itself on a given date
+// and outside the span of the series)
+func refGWBounds(series []GWPoint, zeit int) (lo, hi float64) {
+	pts := make([]GWPoint, len(series))
+	copy(pts, series)
+	sort.SliceStable(pts, func(i, j int) bool { return pts[i].D.Zeit() < pts[j].D.Zeit() })
+	if zeit <= pts[0].D.Zeit() {
+		return pts[0].Level, pts[0].Level
+	}
+	last := pts[len(pts)-1]
+	if zeit >= last.D.Zeit() {
+		return last.Level, last.Level
+	}
+	for i := 0; i+1 < len(pts); i++ {
+		a, b := pts[i], pts[i+1]
+		if zeit == a.D.Zeit() {
+			return a.Level, a.Level
+		}
+		if zeit > a.D.Zeit() && zeit < b.D.Zeit() {
+			return math.Min(a.Level, b.Level), math.Max(a.Level, b.Level)
+		}
+	}
+	return last.Level, last.Level
+}
+
+// gwInputChanges: does the groundwater input give another level for that day than for the day before?
+func gwInputChanges(sc *Scenario, zeit int) bool {
+	switch sc.GWMode {
+	case 0:
+		return sc.GRHI != sc.GRLO
+	case 2:
+		if len(sc.GWSeries) == 0 {
+			return false
+		}
+		l0, h0 := refGWBounds(sc.GWSeries, zeit-1)
+		l1, h1 := refGWBounds(sc.GWSeries, zeit)
+		return !(l0 == h0 && l1 == h1 && l0 == l1) // no change only if both days lie on one plateau of the series
+	}
+	return false
+}
+
 func (m *monC20) Event(ev *hermes.VerifEvent, rc *RunCtx) {
 	if ev.Site != "pre_evatra" {
 		return
@@ -136,6 +177,9 @@ func (m *monC20) Event(ev *hermes.VerifEvent, rc *RunCtx) {
 		exp := refGW(sc.GWSeries, ev.Zeit)
 		if math.Abs(g.GRW-exp) > 1e-9*math.Max(1, math.Abs(exp)) {
 			rc.Violate("C20", "gw_series_mismatch", fmt.Sprintf("groundwater level used %.12g != series value / interpolation %.12g", g.GRW, exp), ev.Zeit, 0, map[string]float64{"grw": g.GRW, "expected": exp})
+		}
+		if lo, hi := refGWBounds(sc.GWSeries, ev.Zeit); g.GRW < lo || g.GRW > hi {
+			rc.Violate("C20", "gw_outside_neighbours", fmt.Sprintf("groundwater level used %.17g lies outside the two neighbouring values of the series [%.17g, %.17g]", g.GRW, lo, hi), ev.Zeit, 0, map[string]float64{"grw": g.GRW, "lo": lo, "hi": hi})
 		}
 		first, last := sc.GWSeries[0].D.Zeit(), sc.GWSeries[len(sc.GWSeries)-1].D.Zeit()
 		switch {
